@@ -103,9 +103,8 @@ where
     P: std::fmt::Debug,
 {
     debug_assert!(absolute_path.as_ref().is_absolute());
-    let mut url = config
-        .hyperlinks_file_link_format
-        .replace("{path}", &absolute_path.as_ref().to_string_lossy());
+    // Substitute the path last: a file name may itself contain "{host}" or "{line}".
+    let mut url = config.hyperlinks_file_link_format.clone();
     if let Some(host) = &config.hostname {
         url = url.replace("{host}", host)
     }
@@ -114,6 +113,7 @@ where
     } else {
         url = url.replace("{line}", "")
     };
+    url = url.replace("{path}", &absolute_path.as_ref().to_string_lossy());
     Cow::from(format_osc8_hyperlink(&url, text))
 }
 
